@@ -36,8 +36,14 @@ def _c12_nontrivial(r):
     lst = parts[-2] if parts[0] in ("first", "upper") else parts[-1]
     return len(set(lst.split(","))) >= 2
 
+def _c06_nontrivial(r):
+    # non-trivial: a data vector that is not all-zero
+    parts = r.split()
+    return parts[0] in ("ecc", "rs") and len(parts) > 2 and parts[2].strip("0-") != ""
+
 NONTRIVIAL = {
     "C12": _c12_nontrivial,
+    "C06": _c06_nontrivial,
 }
 
 def count_nontrivial(pid, reqs):
@@ -49,6 +55,18 @@ def count_nontrivial(pid, reqs):
     return len(seen)
 
 PROPS = {
+    "C06": {
+        "lean": ["DM.Props.C06"],
+        "gens": ["c06"],
+        "level": "proof",
+        "release": True,
+        "rule": "cases: for each of the 48 sizes the zero vector, F2-basis vectors of the data space (all 8*n for n <= 24 codewords, 32 sampled otherwise; thorough: all 8*sum(n) ~ 88k), random vectors, constant and patterned vectors; each case is answered by the model (P: unique RS remainder) and the implementation's output is checked with table-free GF(256) syndromes (O); non-trivial = distinct requests with a non-zero data vector",
+        "explanation": "encode_error_conformant is proved for every size of the regenerated catalogue and every data vector: the model of encode_error returns blocks*k error codewords and every interleaved block has all k syndromes zero in the table-free GF(256) arithmetic of DM/Spec/GF256.lean. Ingredients: LOG/ANTI_LOG tables (regenerated) form a field (structural proof from finite table facts), table multiplication = carry-less multiplication on all 65536 pairs, all 25 generator polynomials (regenerated) are monic with roots 2^1..2^k, LFSR invariant by induction over the data. The model is tied to the code by correspondence on basis and random vectors (a linear map is determined by a basis; random vectors expose non-linear mutations).",
+        "level_text": "Proof: the full statement (all sizes, all data vectors, all blocks, all k syndromes, error codeword count) is one kernel-checked theorem about the model of encode_error over tables regenerated from the code; model = code is checked on an F2-basis of every data space plus random vectors, and the implementation's own output is checked with independent field arithmetic.",
+        "level_note": "Trusted: Lean kernel, standard axioms, Spec/GF256.lean (field polynomial 0x12D, roots 2^1..2^k) and Spec/Table7.lean as the definition of the ISO code, the correspondence harness (basis + random vectors) for model = code.",
+        "technique": "Lean 4 theorem (field laws from table facts, LFSR invariant by induction, decide over regenerated generator polynomials) + model/implementation correspondence",
+        "assumptions": ["encode_error is called with a data vector of the size's length (otherwise it panics by contract)"],
+    },
     "C12": {
         "lean": ["DM.Props.C12"],
         "gens": ["c12"],
